@@ -1,5 +1,5 @@
 (* Model of the factorised-tensor modules of TensorLy (C03):
-     tensorly/cp_tensor.py        _validate_cp_tensor, cp_to_tensor (order-1 route, mode-0 route, masked route),
+     tensorly/cp_tensor.py        _validate_cp_tensor, cp_to_tensor (order-1 route [masked], mode-0 route, masked route),
                                   cp_to_unfolded, cp_to_vec, cp_norm (squared: Gram-Hadamard)
      tensorly/tucker_tensor.py    _validate_tucker_tensor, tucker_to_tensor/_unfolded/_vec (skip_factor, transpose_factors)
      tensorly/tt_tensor.py        _validate_tt_tensor, tt_to_tensor/_unfolded/_vec
@@ -59,6 +59,12 @@ Definition apply_mask (K mask : tensor F) : res (tensor F) :=
     Ok (tabulate [nrows K; ncols K] (fun idx => get2 K (ix 0 idx) (ix 1 idx) *f nth (ix 0 idx) (data mask) zero))
   else Err.
 
+(* vector * reshape(mask, (-1,)) for a 1-D vector *)
+Definition mask_vec (v mask : tensor F) : res (tensor F) :=
+  if length (data mask) =? nrows v then
+    Ok (tabulate [nrows v] (fun idx => get1 v (ix 0 idx) *f nth (ix 0 idx) (data mask) zero))
+  else Err.
+
 (* ------------------------------------------------------------------ CP *)
 Definition cp_rank_of (f : tensor F) : res nat :=
   match shape f with [_; r] => Ok r | [_] => Ok 1 | _ => Err end.
@@ -88,7 +94,8 @@ Definition cp_to_tensor (w : option (tensor F)) (fs : list (tensor F)) (mask : o
     | [] => Err
     | fa :: rest =>
       let f0w := opt_scale w fa in
-      if length shp =? 1 then Ok (sum_axis1 f0w)        (* "just a vector": the mask is not looked at *)
+      if length shp =? 1 then                          (* "just a vector": sum(weights * factors[0], axis=1) [* reshape(mask, (-1,))] *)
+        match mask with None => Ok (sum_axis1 f0w) | Some m => mask_vec (sum_axis1 f0w) m end
       else match mask with
            | None => rbind (khatri_rao (remove_nth 0 fs)) (fun K =>
                      rbind (mdot f0w (mT K)) (fun U => fold zero U 0 shp))
@@ -97,10 +104,12 @@ Definition cp_to_tensor (w : option (tensor F)) (fs : list (tensor F)) (mask : o
            end
     end).
 
-(* cp_to_unfolded(cp_tensor, mode) *)
+(* cp_to_unfolded(cp_tensor, mode): an order-1 CP tensor is returned as a single column (mode 0 only) *)
 Definition cp_to_unfolded (w : option (tensor F)) (fs : list (tensor F)) (mode : nat) : res (tensor F) :=
-  rbind (validate_cp w fs) (fun _ =>
-    if mode <? length fs then
+  rbind (validate_cp w fs) (fun sr =>
+    if length (fst sr) =? 1 then
+      (if mode =? 0 then rbind (cp_to_tensor w fs None) (fun v => reshape_spec [None; Some 1] v) else Err)
+    else if mode <? length fs then
       rbind (khatri_rao (remove_nth mode fs)) (fun K =>
         mdot (opt_scale w (nth mode fs (mk [] []))) (mT K))
     else Err).
